@@ -1,5 +1,90 @@
-From Verif Require Import Lib.Base Txpool.Model Gen.TxpoolConsts.
+(* Final statements for C20, assembled from Inv.v / Refine.v / RefProps.v and
+   tied to the constants regenerated from the source (Gen/TxpoolConsts.v). *)
+From Verif Require Import Lib.Base Txpool.Model Txpool.Inv Txpool.Refine Txpool.RefProps Gen.TxpoolConsts.
 
 Lemma gen_other_guards_expected :
   other_guards = [U64MAX; U64MAX; U64MAX; U64MAX] /\ max_batch_size = MAXBATCH.
 Proof. split; reflexivity. Qed.
+
+Lemma gen_stop_is_maxuint64 : next_sched_stop = U64MAX.
+Proof. reflexivity. Qed.
+
+Lemma sk_init c : SK (init c).
+Proof. exact I. Qed.
+
+Lemma book_refines_ref_l c ops :
+  Forall op_ok ops ->
+  run_obs (b_step next_sched_stop) (init c) ops = run_obs r_step (init c) ops.
+Proof.
+  intros Hok. rewrite gen_stop_is_maxuint64.
+  apply run_obs_refines; [exact Hok|apply sk_init|apply inv_init|apply eqv_refl].
+Qed.
+
+Lemma maxheap_is_ready_set_l c ops :
+  Forall op_ok ops ->
+  let s := run (b_step next_sched_stop) (init c) ops in
+  forall j, In j (maxh s) <-> In j (map tid (ready s)).
+Proof.
+  intros Hok s. apply inv_maxh_ready. unfold s. rewrite gen_stop_is_maxuint64.
+  apply run_inv; [exact Hok|apply sk_init|apply inv_init].
+Qed.
+
+Lemma reachable_inv c ops :
+  Forall op_ok ops -> Inv (run (b_step next_sched_stop) (init c) ops).
+Proof.
+  intros Hok. rewrite gen_stop_is_maxuint64. apply run_inv; [exact Hok|apply sk_init|apply inv_init].
+Qed.
+
+Lemma capacity_respected_l STOP c ops : within_cap (run (b_step STOP) (init c) ops).
+Proof. apply run_within_cap. unfold within_cap. cbn. lia. Qed.
+
+Lemma leaver_rule_l c ops t q e u :
+  Forall op_ok ops ->
+  let s := run (b_step next_sched_stop) (init c) ops in
+  In u (txs s) -> ~ In u (txs (snd (b_add t q e s))) ->
+  (tsender u = tsender t /\ tseq u = tseq t /\ tprio u < tprio t)
+  \/ (tprio u <= tprio t /\ forall w, In w (txs s) -> tprio u <= tprio w).
+Proof. intros Hok s. apply add_leaver_rule. apply reachable_inv. exact Hok. Qed.
+
+Lemma replace_only_higher_l c ops t q e old :
+  Forall op_ok ops ->
+  let s := run (b_step next_sched_stop) (init c) ops in
+  find_id (tid t) (txs s) = None -> In old (txs s) ->
+  tsender old = tsender t -> tseq old = tseq t ->
+  (tprio t <= tprio old -> b_add t q e s = (CReplUnderpriced, s)) /\
+  (tprio old < tprio t -> fst (b_add t q e s) = COk /\
+       forall u, In u (txs (snd (b_add t q e s))) <-> u = t \/ (In u (txs s) /\ u <> old)).
+Proof. intros Hok s. apply replace_only_higher. apply reachable_inv. exact Hok. Qed.
+
+(* the literal the code used before the repair (math.MaxInt64) does NOT refine the reference *)
+Definition witness_ops : list op :=
+  [OAdd (mkTx 1 1 9223372036854775807 1) 9223372036854775807 0;
+   OAdd (mkTx 2 1 9223372036854775808 1) 9223372036854775807 0;
+   OReset; OSchedule 5 [1]].
+
+Lemma book_refines_ref_refuted_for_maxint64 :
+  exists c ops, Forall op_ok ops /\
+    run_obs (b_step 9223372036854775807) (init c) ops <> run_obs r_step (init c) ops.
+Proof.
+  exists 4, witness_ops. split.
+  - repeat constructor; cbn; unfold U64MAX; lia.
+  - vm_compute. discriminate.
+Qed.
+
+(* non-vacuity: a concrete non-trivial history meets the hypotheses and exercises
+   replacement, capacity eviction, a two-transaction pass, used and forward *)
+Definition example_ops : list op :=
+  [OAdd (mkTx 1 1 5 1) 5 0; OAdd (mkTx 2 1 6 2) 5 0; OAdd (mkTx 3 2 0 3) 0 0;
+   OAdd (mkTx 4 1 6 3) 5 0;                 (* replaces id 2 *)
+   OAdd (mkTx 5 2 1 0) 0 5;                 (* capacity 3: evicts itself (lowest) *)
+   OReset; OSchedule 2 [3; 1]; OSchedule 5 [4];
+   OUsed 1; OForward 2 1; OReset; OSchedule 5 [4]].
+
+Example example_ops_ok : Forall op_ok example_ops.
+Proof. repeat constructor; cbn; unfold U64MAX; lia. Qed.
+
+Example example_run :
+  run_obs (b_step next_sched_stop) (init 3) example_ops =
+  [(COk, [1]); (COk, [1; 2]); (COk, [1; 2; 3]); (COk, [1; 3; 4]); (CUnderpriced, [1; 3; 4]);
+   (COk, [1; 3; 4]); (COk, [1; 3; 4]); (COk, [1; 3; 4]); (COk, [3; 4]); (COk, [4]); (COk, [4]); (COk, [4])].
+Proof. vm_compute. reflexivity. Qed.
